@@ -205,6 +205,18 @@ def run(ctx):
     drain = one_method(chk, "C16.b", u, RES, "drain")
     if drain:
         r = strip_sym(Sym(drain).local(0))
+        if r[0] == "phi":
+            # several return sites each building the Drain (early return for the not-over-filled case): field-wise alternatives
+            alts_ = [strip_sym(x) for x in r[1]]
+            if alts_ and all(a_[0] == "agg" and a_[1:3] == alts_[0][1:3] and a_[4] == alts_[0][4] and len(a_[3]) == len(alts_[0][3]) for a_ in alts_):
+                cols = []
+                for i_ in range(len(alts_[0][3])):
+                    vals = []
+                    for a_ in alts_:
+                        if repr(strip_sym(a_[3][i_])) not in [repr(strip_sym(v)) for v in vals]:
+                            vals.append(a_[3][i_])
+                    cols.append(vals[0] if len(vals) == 1 else ("phi", tuple(vals)))
+                r = (alts_[0][0], alts_[0][1], alts_[0][2], tuple(cols)) + tuple(alts_[0][4:])
         # Drain's private counters by role (names are the fallback): the field initialised from count.load() is the
         # number of pushes, the one initialised with 0 the cursor, the remaining integer the number of retained values
         if r[0] == "agg":
